@@ -40,6 +40,57 @@ def verify_contracts(ctx, world, contracts, replayers=None, theory="int"):
     ctx.trusted.extend(sorted(world.speclib.used))
 
 
+def native_replayer(call, params, specs, kinds=None):
+    """Replay of a solver model for a contract over plain values: `call(**args)` runs the REAL function; every
+    `requires` / `ensures` clause of the contract is then evaluated natively, with the sidecar's spec functions (they
+    are ordinary Python) in scope.  `params` lists the parameter names in the order of the contract's model_vars; `kinds`
+    says how to turn the model value into a Python value ('str', 'bytes', 'int', 'list:str', ...).  Confirms only when
+    the model satisfies every precondition and some postcondition is false (or an unlisted exception escapes)."""
+    kinds = kinds or {}
+
+    def conv(v, kind):
+        if kind == "str":
+            return "".join(chr(c) for c in (v or [])) if not isinstance(v, str) else v
+        if kind == "bytes":
+            return bytes(c & 255 for c in (v or []))
+        if kind.startswith("list:"):
+            return [conv(x, kind[5:]) for x in (v or [])]
+        return v
+
+    def rp(model, obl, c):
+        try:
+            args = {}
+            for nm, var in zip(params, c.model_vars):
+                if var not in model:
+                    return {"confirmed": False, "note": "model has no value for %s" % var, "model": repr(model)[:400]}
+                args[nm] = conv(model[var], kinds.get(nm, "str"))
+            ns = dict(specs)
+            ns.update(args)
+            ns["implies"] = lambda a, b: (not a) or b
+            for r in getattr(c, 'native_requires', None) or c.requires:
+                if not eval(r, ns):
+                    return {"confirmed": False, "note": "model outside the precondition %r" % r, "args": repr(args)}
+            raised = None
+            try:
+                ns["result"] = call(**args)
+            except Exception as e:
+                raised = e
+            out = {"function": c.qualname, "args": {k: repr(v) for k, v in args.items()}}
+            if raised is not None:
+                out["raised"] = repr(raised)
+                conds = getattr(c, "raises", {}).get(type(raised).__name__)
+                out["confirmed"] = conds is None or not all(eval(t, ns) for t in conds)
+                return out
+            out["result"] = repr(ns["result"])
+            failed = [t for t in getattr(c, 'native_ensures', None) or c.ensures if not eval(t, ns)]
+            out["failed_clauses"] = failed
+            out["confirmed"] = bool(failed)
+            return out
+        except Exception as e:           # clause not natively evaluable (old(), comp(), ghost state ...)
+            return {"confirmed": False, "note": "native replay not possible: %r" % (e,)}
+    return rp
+
+
 class Lemma:
     """A fact about spec functions, proved for all values of its parameters.  `induction` lists the
     instances of the induction hypothesis (parameter -> expression over the parameters); each is
